@@ -42,7 +42,7 @@ def main():
                 want = not m.get('harmless', False)
                 ok = (viol == want) and r.returncode == (1 if want else 0)
                 which = [l.split('failed obligation: ')[1] for l in r.stdout.splitlines() if l.startswith('failed obligation: ')]
-                rows.append((name, prop, 'caught' if viol else 'silent', 'OK' if ok else 'UNEXPECTED', f"{time.time()-t0:.0f}s", '; '.join(w.split(' (')[0] for w in which)[:200]))
+                rows.append((name, prop, 'caught' if viol else ('check-did-not-run (does the mutant compile?)' if r.returncode not in (0, 1) else 'silent'), 'OK' if ok else 'UNEXPECTED', f"{time.time()-t0:.0f}s", '; '.join(w.split(' (')[0] for w in which)[:200]))
                 if not ok:
                     bad += 1
                     if r.returncode not in (0, 1):
